@@ -39,6 +39,11 @@ type c06Tx struct {
 }
 
 func c06(r *simk.Run) *simk.Violation {
+	if r.C.Intn(6) == 0 {
+		// the builder half (VM-independent): the state a builder derives must be the state verification
+		// derives, so no fee is burned and no balance moved for a transaction that is not in the block
+		return buildScenario(r, "C06", 0.8)
+	}
 	c := r.C
 	s := r.NewSim()
 	s.KeepLog = simk.WantLog()
